@@ -283,7 +283,8 @@ def cols_case(draw):
         return {"cols": [first], "wide": draw(st.sampled_from([257, 300, 511, 512, 700])), "wide_seed": draw(gen.seeds),
                 "window": draw(window_name), "nfft": draw(st.one_of(gen.nfft_at_least(N), st.none()))}
     cols = [first] + [draw(gen.signal(dtype=dtype, kinds=KINDS, n=N, explicit_max=16)) for _ in range(c - 1)]
-    return {"cols": cols, "window": draw(window_name), "nfft": draw(st.one_of(gen.nfft_at_least(N), gen.nfft_at_least(N), gen.nfft_at_least(N), st.none()))}
+    return {"cols": cols, "window": draw(window_name), "nfft": draw(st.one_of(gen.nfft_at_least(N), gen.nfft_at_least(N), gen.nfft_at_least(N), st.none())),
+            "container": draw(st.sampled_from(["ndarray", "ndarray", "matrix", "lists"]))}
 
 
 @sub("C01.cols", strategy=cols_case(), quick=600, thorough=20000,
@@ -308,9 +309,23 @@ def c01_cols(ctx, case):
     w = window_or_skip(ctx, N, name)
     if w is None:
         return
-    got = np.asarray(spectrum.speriodogram(X, NFFT=case["nfft"], detrend=False, scale_by_freq=False, window=name))
+    # the documented containers of a 2-D record: an array, a numpy.matrix ("if a matrix is provided (using numpy.matrix)"), nested lists
+    container = case.get("container", "ndarray")
+    if container == "matrix":
+        import warnings
+        with warnings.catch_warnings():
+            warnings.simplefilter("ignore")
+            Xin = np.matrix(X)
+    elif container == "lists":
+        Xin = X.tolist()
+    else:
+        Xin = X
+    ctx.cls("container=" + container)
+    got = np.asarray(spectrum.speriodogram(Xin, NFFT=case["nfft"], detrend=False, scale_by_freq=False, window=name))
     nb = nfft if cplx else nfft // 2 + 1
     sig = {"api": "speriodogram-2d", "dtype": "complex" if cplx else "real"}
+    if container != "ndarray":
+        sig["container"] = container
     ctx.check(got.shape == (nb, c), "speriodogram of a %d x %d %s matrix (NFFT=%r) has shape %s, expected (%d, %d)"
               % (N, c, "complex" if cplx else "real", case["nfft"], got.shape, nb, c), sig=sig)
     for j in range(c):
@@ -333,7 +348,8 @@ def enum_cols_grid(tier):
                     x = {"kind": "noise", "n": N, "complex": cplx, "seed": 1000 * N + 10 * c + cplx, "noise": 1.0}
                     cols = [dict(x, seed=x["seed"] + 7919 * j) for j in range(c)]
                     for nfft in (None, N + 3):
-                        yield {"cols": cols, "window": name, "nfft": nfft}
+                        yield {"cols": cols, "window": name, "nfft": nfft,
+                               "container": ["ndarray", "matrix", "lists"][(N + c + (nfft or 0)) % 3] if name != "hamming" else "matrix"}
 
 
 @sub("C01.cols_grid", enum=enum_cols_grid, exhaustive=True,
@@ -378,3 +394,15 @@ from vlib import kwcheck as _kw   # noqa: E402
          "result as the positional call, and every documented name is accepted: " + ", ".join(_kw.PROPS["C01"]))
 def c01_keywords(ctx, case):
     _kw.body(ctx, case)
+
+
+# ---- the object between two reads: display calls, in-place edits of the samples, a refilled buffer ------------
+from vlib import lifecheck as _life   # noqa: E402
+
+
+@sub("C01.life", strategy=_life.life_case(['Periodogram']), quick=160, thorough=4000,
+     doc="the estimate (and every exposed model quantity) of a live object after p.plot(norm=True) / p.plot() / str(p) is "
+         "bit-identical to what it was, and after p.data *= g, p.data -= mean or the construction buffer refilled in place and "
+         "assigned again equals that of a fresh object on the samples now held: Periodogram")
+def c01_life(ctx, case):
+    _life.body(ctx, case)
